@@ -121,7 +121,7 @@ Proof.
   destruct o1 as [a|e| |k|].
   - injection H as <- <- <-. split; [|discriminate]. intros _. unfold catch_exceeded. rewrite Hne by discriminate. reflexivity.
   - assert (Hrun : m (ext s ys) = (tr1, ext s1 ys, Fail e)) by (apply Hne; discriminate).
-    destruct e as [p0 tn v src|c v b|c v val b|c|cc|rest cc];
+    destruct e as [p0 tn v src|c v b|c v val b|c|cc|rest cc|mp me mf];
       try (injection H as <- <- <-; split; [|discriminate]; intros _; unfold catch_exceeded; rewrite Hrun; reflexivity).
     destruct (abort || negb (existsb (Nat.eqb (si_id c)) ids)) eqn:G.
     + injection H as <- <- <-. split; [|discriminate]. intros _. unfold catch_exceeded. rewrite Hrun, G. reflexivity.
@@ -134,7 +134,7 @@ Proof.
   - injection H as <- <- <-. split; [intros C; contradiction|]. intros _.
     destruct (Hmore eq_refl) as (t2 & s2 & o2 & E2). unfold catch_exceeded. rewrite E2.
     destruct o2 as [a|e| |k|]; try (eexists _, _, _; reflexivity).
-    destruct e as [p0 tn v src|c v b|c v val b|c|cc|rest cc]; try (eexists _, _, _; reflexivity).
+    destruct e as [p0 tn v src|c v b|c v val b|c|cc|rest cc|mp me mf]; try (eexists _, _, _; reflexivity).
     destruct (abort || negb (existsb (Nat.eqb (si_id c)) ids)); [eexists _, _, _; reflexivity|].
     destruct (h s2) as [[t3 s3] o3]. rewrite <- app_assoc. eexists _, _, _. reflexivity.
   - injection H as <- <- <-. split; [|discriminate]. intros _. unfold catch_exceeded. rewrite Hne by discriminate. reflexivity.
